@@ -145,6 +145,13 @@ func (vc *VC) Generate() (err error) {
 				vc.bindingFailure(c, fmt.Sprintf("loop %d does not exist (function has %d loops)", c.Loop, len(vc.loopList)))
 			}
 		}
+		if len(vc.retBlocks) > 0 {
+			for _, c := range vc.fc.Ensures {
+				if !c.Derived && vc.ensuresSeen[c] == 0 {
+					vc.bindingFailure(c, "the post-condition could not be evaluated at any return (it names a variable that is nowhere in scope)")
+				}
+			}
+		}
 		for _, c := range vc.fc.Sites {
 			if vc.siteUsed[c] == 0 {
 				vc.bindingFailure(c, fmt.Sprintf("no call site matches %s#%d", c.Site, c.SiteN))
